@@ -21,6 +21,7 @@ from . import signatures as sig
 TREES = {
     'Par7': {'par': [0, 1, 2, 3, 2, 5, 6], 'n': 7, 'start': 2, 'batch': 2, 'tips': 'Tips134'},
     'Par7s1': {'par': [0, 1, 2, 3, 2, 5, 6], 'n': 7, 'start': 1, 'batch': 2, 'tips': 'Tips124'},
+    'Par7s4': {'par': [0, 1, 2, 3, 2, 5, 6], 'n': 7, 'start': 4, 'batch': 2, 'tips': 'Tips4'},     # three headers before the start block
     'Par14': {'par': [0, 1, 2, 3, 4, 5, 6, 7, 8, 9, 10, 11, 9, 13], 'n': 14, 'start': 1, 'batch': 12, 'tips': 'Tips14'},
     'Par15': {'par': [0, 1, 2, 3, 4, 5, 6, 7, 8, 9, 10, 11, 11, 13, 14], 'n': 15, 'start': 1, 'batch': 12, 'tips': 'Tips15'},
 }
@@ -41,6 +42,8 @@ def tree_subst(tree):
         return {}
     if tree == 'Par7s1':
         return {'Start = 2': 'Start = 1', 'InitTips <- Tips134': 'InitTips <- Tips124'}
+    if tree == 'Par7s4':
+        return {'Start = 2': 'Start = 4', 'InitTips <- Tips134': 'InitTips <- Tips4'}
     return {'N = 7': 'N = %d' % t['n'], 'Par <- Par7': 'Par <- %s' % tree, 'Start = 2': 'Start = %d' % t['start'],
             'Batch = 2': 'Batch = %d' % t['batch'], 'InitTips <- Tips134': 'InitTips <- %s' % t['tips']}
 
